@@ -12,7 +12,7 @@ pub struct SigObs {
     pub msg: usize,
     pub bytes: Vec<u8>,
     /// `from_bytes(to_bytes(sig))` is `Ok`, equals `sig`, and serialises to the same bytes.
-    pub roundtrip: Result<(), String>,
+    pub roundtrip_err: Option<String>,
     /// The deserialised copy verifies at the harness' period count t.
     pub roundtrip_verifies: Option<bool>,
     /// (period p, verify(p, pk, msg) is Ok, error text)
@@ -27,8 +27,8 @@ pub struct Step {
     pub pk: [u8; 32],
     pub buf: Vec<u8>,
     pub sigs: Vec<SigObs>,
-    /// result of the `update` attempted in this state
-    pub update: Result<(), String>,
+    /// error of the `update` attempted in this state (None = it succeeded)
+    pub update_err: Option<String>,
     /// buffer and reported period after a failed update
     pub after_failed_update: Option<(Vec<u8>, u32)>,
 }
@@ -58,10 +58,23 @@ pub struct KesType {
     pub name: &'static str,
     pub family: &'static str,
     pub depth: u32,
+    #[allow(dead_code)]
     pub compact: bool,
     pub buf_len: usize,
     pub walk: fn(&[u8; 32], &[Vec<u8>], Periods) -> Walk,
     pub resume: fn(&[u8], &[u8]) -> Result<Resume, String>,
+}
+
+macro_rules! guard {
+    ($w:ident, $op:expr, $e:expr) => {
+        match catch(|| $e) {
+            Ok(v) => v,
+            Err(p) => {
+                $w.panic = Some(($op.to_string(), p));
+                break;
+            }
+        }
+    };
 }
 
 macro_rules! kes_type {
@@ -71,17 +84,6 @@ macro_rules! kes_type {
             let mut buf = vec![0u8; $sk::SIZE + 4];
             let mut s = *seed;
             {
-                macro_rules! guard {
-                    ($op:expr, $e:expr) => {
-                        match catch(|| $e) {
-                            Ok(v) => v,
-                            Err(p) => {
-                                w.panic = Some(($op.to_string(), p));
-                                break;
-                            }
-                        }
-                    };
-                }
                 let b = &mut buf[..];
                 let sr = &mut s[..];
                 let (mut sk, pk) = match catch(move || $sk::keygen(b, sr)) {
@@ -97,10 +99,10 @@ macro_rules! kes_type {
                 #[allow(clippy::never_loop)]
                 loop {
                     let mut st = Step { t, ..Default::default() };
-                    st.period = guard!("get_period", sk.get_period());
-                    let tp = guard!("to_pk", sk.to_pk());
+                    st.period = guard!(w, "get_period", sk.get_period());
+                    let tp = guard!(w, "to_pk", sk.to_pk());
                     st.pk.copy_from_slice(tp.as_bytes());
-                    st.buf = guard!("as_bytes", sk.as_bytes().to_vec());
+                    st.buf = guard!(w, "as_bytes", sk.as_bytes().to_vec());
                     let mut broke = false;
                     for (mi, m) in msgs.iter().enumerate() {
                         let sig = match catch(|| sk.sign(m)) {
@@ -126,14 +128,14 @@ macro_rules! kes_type {
                                 broke = true;
                                 break;
                             }
-                            Ok(Err(e)) => so.roundtrip = Err(format!("from_bytes failed: {e}")),
+                            Ok(Err(e)) => so.roundtrip_err = Some(format!("from_bytes failed: {e}")),
                             Ok(Ok(s2)) => {
-                                so.roundtrip = if s2 != sig {
-                                    Err("from_bytes(to_bytes(sig)) != sig".to_string())
+                                so.roundtrip_err = if s2 != sig {
+                                    Some("from_bytes(to_bytes(sig)) != sig".to_string())
                                 } else if s2.to_bytes()[..] != so.bytes[..] {
-                                    Err("to_bytes(from_bytes(bytes)) != bytes".to_string())
+                                    Some("to_bytes(from_bytes(bytes)) != bytes".to_string())
                                 } else {
-                                    Ok(())
+                                    None
                                 };
                                 so.roundtrip_verifies = catch(|| s2.verify(t, &pk, m).is_ok()).ok();
                             }
@@ -165,13 +167,13 @@ macro_rules! kes_type {
                             break;
                         }
                         Ok(Ok(())) => {
-                            st.update = Ok(());
+                            st.update_err = None;
                             w.steps.push(st);
                         }
                         Ok(Err(e)) => {
-                            st.update = Err(e.to_string());
-                            let after = guard!("as_bytes", sk.as_bytes().to_vec());
-                            let per = guard!("get_period", sk.get_period());
+                            st.update_err = Some(e.to_string());
+                            let after = guard!(w, "as_bytes", sk.as_bytes().to_vec());
+                            let per = guard!(w, "get_period", sk.get_period());
                             st.after_failed_update = Some((after, per));
                             w.steps.push(st);
                             break;
